@@ -30,6 +30,23 @@ TrnIdCoresThorough == TrnIdCoresQuick \cup {<<2, 0, 0, 1>>}
 \*   10^16 s        absurdly late: 5e+16, 1.2e+18
 CtmFineUnitsAll == {[s |-> <<2, -16>>, d |-> <<2, -16>>], [s |-> <<2, -3>>, d |-> <<2, -48>>],
                     [s |-> <<10, -7>>, d |-> <<10, -7>>], [s |-> <<10, 16>>, d |-> <<10, 16>>]}
+\* trn: transcripts outside the generic bounds (TrnExtra).  Widening TrnBranch / TrnDepth / TrnLeaves far enough to
+\* reach them generically (3 branches at depth 3, 4+ leaves) multiplies the enumerated universe beyond what a quick
+\* run can bear, so the shapes are listed: an alternate with THREE (and with four) branches
+\*     { a / MID / b }      MID: empty | one token | two tokens | another alternate | another 3-way alternate
+\* placed at top level, alone inside an enclosing alternate "{ { a / MID / b } }", between the tokens of the first
+\* branch of an enclosing 2-way alternate "{ a { a / MID / b } b / a }" (sclite's  { well { um / you know / uh } ok /
+\* right }), in the second branch of one after a plain token, and two alternates deep.
+TrnMids == {<<>>, <<Tok(NTok)>>, <<Tok(1), Tok(NTok)>>, <<Alt(<<<<Tok(NTok)>>>>)>>, <<Alt(<<<<Tok(1)>>, <<>>, <<Tok(NTok)>>>>)>>}
+TrnThree(mid) == Alt(<<<<Tok(1)>>, mid, <<Tok(NTok)>>>>)
+TrnFour(mid) == Alt(<<<<Tok(1)>>, mid, <<>>, <<Tok(NTok)>>>>)
+TrnWraps(x) ==
+  {<<x>>,
+   <<Alt(<<<<x>>>>)>>,
+   <<Alt(<<<<Tok(1), x, Tok(NTok)>>, <<Tok(1)>>>>)>>,
+   <<Tok(NTok), Alt(<<<<Tok(1)>>, <<x>>>>)>>,
+   <<Alt(<<<<Alt(<<<<>>, <<x>>>>)>>>>)>>}
+TrnExtraNested == UNION {TrnWraps(TrnThree(mid)) \cup TrnWraps(TrnFour(mid)) : mid \in TrnMids}
 \* Deliberately wrong variants (substituted through a cfg: `TguLo <- TguLoFirstListed` ...) that the invariants
 \* of the two families must reject -- otherwise the universes could not tell them from the right ones
 TguLoFirstListed(tr, p) == RoundTo(tr[1].s, p)                                  \* "the tier starts with the first entry listed"
